@@ -75,6 +75,11 @@ impl JsonConverter {
                 serde_json::Value::Number(n)
             }
             &Val::Int(i) => {
+                // A double holds every integer up to 2^53 in magnitude exactly. A bigger one
+                // could get rounded to a different number, so it is written as an integer.
+                if i.unsigned_abs() > (1u64 << 53) {
+                    return Ok(serde_json::Value::Number(serde_json::Number::from(i)));
+                }
                 let n = match serde_json::Number::from_f64(i as f64) {
                     Some(n) => n,
                     None => {
